@@ -28,6 +28,8 @@ import Driver.Suites.Codec
 import Driver.Suites.Reader
 import Driver.Suites.Geometry
 import Driver.Suites.CreateVerify
+import Driver.Suites.MSE
+import Driver.Suites.Policy
 /-! Table of suites known to the driver.  One line per suite (merge=union friendly). -/
 namespace Driver
 def registry : List Suite := [
@@ -67,5 +69,7 @@ def registry : List Suite := [
   Suites.Reader.suite,
   Suites.Geometry.suite,
   Suites.CreateVerify.suite,
+  Suites.MSE.suite,
+  Suites.Policy.suite,
 ]
 end Driver
